@@ -107,15 +107,39 @@ func runC08(c *eng.Ctx) {
 		putOK, _ := eng.ErrCheckEdges(f, put.Instr.(ssa.Value))
 		c.Check(len(mismatch) > 0 && len(putOK) > 0, "branches", put.Instr, f, "ReplicaLog branches on index mismatch and on the result of Put", fmt.Sprintf("%d mismatch edges, %d put-ok edges", len(mismatch), len(putOK)))
 		n := 0
-		for _, b := range f.Blocks {
-			if b == f.Recover {
-				continue
-			}
-			for _, in := range b.Instrs {
-				r, ok := in.(*ssa.Return)
-				if !ok {
+		// the returns to classify: those of ReplicaLog, and - when ReplicaLog ends with a call of the helper that holds the test
+		// and the append (return p.appendLocked(idx, msg)) - the helper's returns in place of that tail call
+		body := put.Instr.Parent()
+		var rets []*ssa.Return
+		bodies := []*ssa.Function{f}
+		if body != f {
+			bodies = append(bodies, body)
+		}
+		for _, g := range bodies {
+			for _, b := range g.Blocks {
+				if b == g.Recover {
 					continue
 				}
+				for _, in := range b.Instrs {
+					r, ok := in.(*ssa.Return)
+					if !ok {
+						continue
+					}
+					if g == f && body != f {
+						if ex, isE := eng.Unwrap(eng.RetVal(r, 0)).(*ssa.Extract); isE {
+							if cl, isC := ex.Tuple.(*ssa.Call); isC && eng.TransparentCallee(cl) == body {
+								continue // the tail call: replaced by the helper's own returns
+							}
+						}
+					}
+					rets = append(rets, r)
+				}
+			}
+		}
+		for _, r := range rets {
+			{
+				in := ssa.Instruction(r)
+				f := r.Parent()
 				n++
 				v := eng.RetVal(r, 0)
 				if k, isC := eng.ConstInt(v); isC && k < 0 {
